@@ -217,12 +217,10 @@ def translate_expression(expr, env: Env) -> TExp:  # noqa: C901
             if arg_l != arg_r:
                 raise TypeErrorException(tleft[0], tcomp[0])
 
-            if isinstance(expr.ops[0], ast.Eq):
-                op = Qbool.eq
-            elif isinstance(expr.ops[0], ast.NotEq):
-                op = Qbool.neq
-            else:
+            # Tuples differ iff they are not equal: build the equality, negate for !=
+            if not isinstance(expr.ops[0], (ast.Eq, ast.NotEq)):
                 raise exceptions.OperationNotSupportedException(bool, expr.ops[0])
+            op = Qbool.eq
 
             c = True
             idx = 0
@@ -234,6 +232,9 @@ def translate_expression(expr, env: Env) -> TExp:  # noqa: C901
                     for si in range(left.BIT_SIZE):
                         c = And(c, op((bool, tleft[1][idx]), (bool, tcomp[1][idx]))[1])
                         idx += 1
+
+            if isinstance(expr.ops[0], ast.NotEq):
+                c = Not(c)
 
             return (bool, c)
 
